@@ -281,6 +281,7 @@ type Link struct {
 	finWritten   bool // From closed; the FIN follows all in-flight bytes
 	finDelivered bool
 	rst          bool // reset: reader sees ECONNRESET once readable is drained, writer sees EPIPE
+	timedOut     bool // with rst: the kernel gave up on the peer (retransmission / keep-alive probes exhausted): both see ETIMEDOUT
 	Dead         bool // black hole: the driver must not deliver anything any more
 
 	stallArmed   bool // the next Write parks after enqueueing its bytes
@@ -354,6 +355,9 @@ func (c *Conn) Read(p []byte) (int, error) {
 			return k, nil
 		}
 		if c.in.rst {
+			if c.in.timedOut {
+				return 0, opErr("read", c.network, c.laddr, c.raddr, os.NewSyscallError("read", syscall.ETIMEDOUT))
+			}
 			return 0, opErr("read", c.network, c.laddr, c.raddr, os.NewSyscallError("read", syscall.ECONNRESET))
 		}
 		if c.in.finDelivered {
@@ -377,6 +381,9 @@ func (c *Conn) Write(p []byte) (int, error) {
 			return total, opErr("write", c.network, c.laddr, c.raddr, errClosed)
 		}
 		if l.rst {
+			if l.timedOut {
+				return total, opErr("write", c.network, c.laddr, c.raddr, os.NewSyscallError("write", syscall.ETIMEDOUT))
+			}
 			return total, opErr("write", c.network, c.laddr, c.raddr, os.NewSyscallError("write", syscall.EPIPE))
 		}
 		if c.wdl.expired() {
@@ -777,6 +784,22 @@ func (n *Network) Reset(c *Conn) {
 		l.rst = true
 	}
 	n.logf("reset c%d", c.ID)
+	n.cond.Broadcast()
+}
+
+// TimeoutKill ends a connection the way the kernel ends one whose peer stopped
+// answering (retransmissions or keep-alive probes exhausted, TCP_USER_TIMEOUT):
+// in-flight data is lost and both ends get ETIMEDOUT, an error whose
+// net.Error.Timeout() is true although it is final for the connection.
+func (n *Network) TimeoutKill(c *Conn) {
+	n.mu.Lock()
+	defer n.mu.Unlock()
+	for _, l := range []*Link{c.in, c.out} {
+		l.inflight = nil
+		l.rst = true
+		l.timedOut = true
+	}
+	n.logf("timeout-kill c%d", c.ID)
 	n.cond.Broadcast()
 }
 
